@@ -6,5 +6,8 @@ From SV Require Import Base.Bytes Generated.SourceParams.
 Import ListNotations.
 From SV Require Import Model.ConnInst.
 
+Lemma conn_buf_translated : src_problems_conn_buf = 0%nat.
+Proof. reflexivity. Qed.
+
 Lemma conn_buf_tie : cap8k = N.to_nat src_conn_buf_len.
 Proof. reflexivity. Qed.
